@@ -157,6 +157,15 @@ func main() {
 			deep = true
 		}
 	}
+	defer func() {
+		if p := recover(); p != nil {
+			// an internal error outside a rule: the property is undecided, which counts as a violation report
+			for _, id := range ids {
+				fmt.Printf("VIOLATION property=%s replay=-\n  rule=internal construct=checker verdict=undecided\n  internal error: %v\n", id, p)
+			}
+			os.Exit(1)
+		}
+	}()
 	start := time.Now()
 	results := map[string]*runResult{}
 	for _, id := range ids {
